@@ -1,14 +1,14 @@
 \* state-graph export for the conformance replay; harness/checks/C04.py rewrites the Deviations line with the
 \* deviations the implementation actually shows (all of them on the pinned tree)
-\* format 2.0, 4 actions deep
+\* 2 holes, every action, 5 actions deep, lengths 0 and 2
 SPECIFICATION Spec
 CONSTANTS
   MaxHoles = 2
   Names = {"a", "b"}
-  DepthLens = {1, 2, 3}
-  Version = 20
+  DepthLens = {0, 2}
+  Version = 21
   Deviations = {"RenameKeepsLabel", "WsRemoveKeepsChild", "HoleRemovalKeepsObjectRows", "HoleRemovalKeepsGroupChild", "StalePgIdCache", "EmptyTableRaises", "TableByLabel"}
-  MaxLevel = 4
+  MaxLevel = 5
   Acts = {"AddHole", "AddDepthData", "AddIntervalData", "SetValues", "Rename", "RemoveDataViaParent", "RemoveDataViaWorkspace", "RemoveHoleViaParent", "RemoveHoleViaWorkspace", "RemovePropertyGroup", "AddValuesToTable", "Reopen", "CopyGroup"}
 VIEW vw
 INVARIANT ExportState
